@@ -161,13 +161,34 @@ def branch_shapes(ck, exe, work):
                 fn = f"s{n}_{op}_{sh.replace('-', '_')}"
                 names.append(fn)
                 funcs.append(f"{fn}: func i64, i64:a, i64:b\n  local i64:r, i64:p, i64:x, i64:y\n" + body.format(t=f"T{n}", f=f"F{n}") + "  endfunc\n")
+    nint = len(names)
+    sigs = {fn: "ii_i" for fn in names}
+    # floating-point compares: a branch, and a compare feeding bt / bf (the false branch of a combined pair must
+    # not become the opposite compare: unordered operands)
+    DV = [0, 1 << 63, 0x3ff0000000000000, 0xbff0000000000000, 0x4004000000000000, 0x7ff0000000000000, 0xfff0000000000000,
+          0x7ff8000000000000, 0xfff8000000000001, 1]
+    FV = [0, 1 << 31, 0x3f800000, 0xbf800000, 0x40200000, 0x7f800000, 0xff800000, 0x7fc00000, 0xffc00001, 1]
+    for pfx, sig in (("f", "ff_i"), ("d", "dd_i")):
+        for c in ("eq", "ne", "lt", "le", "gt", "ge"):
+            shapes = {"br": f"  {pfx}b{c} {{t}}, a, b\n" + tail,
+                      "cmp-bt": f"  {pfx}{c} x, a, b\n  bt {{t}}, x\n" + tail,
+                      "cmp-bf": f"  {pfx}{c} x, a, b\n  bf {{t}}, x\n" + tail,
+                      "cmp-bts": f"  {pfx}{c} x, a, b\n  bts {{t}}, x\n" + tail,
+                      "cmp-bfs": f"  {pfx}{c} x, a, b\n  bfs {{t}}, x\n" + tail}
+            for sh, body in shapes.items():
+                n += 1
+                fn = f"s{n}_{pfx}{c}_{sh.replace('-', '_')}"
+                names.append(fn)
+                sigs[fn] = sig
+                funcs.append(f"{fn}: func i64, {pfx}:a, {pfx}:b\n  local i64:r, i64:x\n" + body.format(t=f"T{n}", f=f"F{n}") + "  endfunc\n")
     text = "m: module\nexport " + ", ".join(names) + "\n" + "".join(funcs) + "endmodule\n"
-    plan = "ivals " + " ".join(f"{v:x}" for v in BRVALS) + "\n" + "".join(f"grid {fn} ii_i any\n" for fn in names)
+    plan = ("ivals " + " ".join(f"{v:x}" for v in BRVALS) + "\ndvals " + " ".join(f"{v:x}" for v in DV) + "\nfvals "
+            + " ".join(f"{v:x}" for v in FV) + "\n" + "".join(f"grid {fn} {sigs[fn]} any\n" for fn in names))
     rc, lines, err = progtie.run_engine(exe, ENGINES, text, plan, work, "brshapes", timeout=300, quiet=False)
     rl = [l for l in lines if l.startswith("R ")]
     bad = [l for l in rl if " | =" not in l]
     errs = [l for l in lines if l.startswith("E ")]
-    want = len(names) * len(BRVALS) ** 2
+    want = nint * len(BRVALS) ** 2 + (len(names) - nint) * len(DV) ** 2
     if rc != 0 or errs or len(rl) != want:
         ck.broken_ties.append({"kind": "harness", "name": "branch-shapes", "rc": rc, "lines": len(rl), "expected": want,
                                "errors": errs[:3], "stderr": err[-300:]})
@@ -183,7 +204,7 @@ def branch_shapes(ck, exe, work):
         a, b2 = l.split(" |")[0].split()[2:4]
         i = names.index(fn)
         one = "m: module\nexport " + fn + "\n" + funcs[i] + "endmodule\n"
-        ck.violation({"stage": "branch-shapes", "function": fn, "mir": one, "plan": f"call {fn} ii_i {a} {b2}\n", "engines": ENGINES,
+        ck.violation({"stage": "branch-shapes", "function": fn, "mir": one, "plan": f"call {fn} {sigs[fn]} {a} {b2}\n", "engines": ENGINES,
                       "line": l, "how_to_rerun": "./check C01 --replay <this file>"},
                      what=f"compare-and-branch shape {fn} with a={a} b={b2}: engines disagree: {l.split(' |')[1][:120]}")
     return len(rl)
